@@ -12,8 +12,9 @@
    * _channels (on the stored template) returns best_channel of get_template(n, unwhiten=False).
    C05's names are used qualified (both developments define lmax, ptp, argmax_from ...). *)
 From Coq Require Import ZArith QArith List Bool Lia Arith.
+(* C05 first, C09 last: unqualified names are C09's *)
+From PV Require Import C05.Model C05.Spec C05.Proofs C05.Proofs3 C05.Proofs9 C05.Props.
 From PV Require Import C09.Model C09.Spec C09.Proofs C09.Proofs2 C09.Proofs3 C09.Proofs5.
-From PV Require C05.Model C05.Spec C05.Proofs C05.Proofs3 C05.Proofs9 C05.Props.
 Import ListNotations.
 Open Scope Z_scope.
 
